@@ -16,12 +16,12 @@ def run(ctx):
     sentinel.probe_past_tombstones(ctx, fx, FILE, "hash_map::zipora_hash_map::HashEntry::hash", sents)
     ctx.floor("R-PROBE.probes", 1)
     sentinel.index_reduction_agreement(ctx, fx, FILE, "hash_map::zipora_hash_map::HashEntry::hash")
-    ctx.floor("R-SIBLING.index.sites", 6)
+    ctx.floor("R-SIBLING.index.sites", 4)
     # GoldHashMap keeps the cached hash of entries[i] in hash_cache[i]
     parallel.run(ctx, fx, "src/hash_map/gold_hash_map.rs", "hash_map::gold_hash_map::GoldHashMap", "entries", "hash_cache")
     ctx.floor("R-PARALLEL.functions", 2)
     parallel.clear_completeness(ctx, fx, "src/hash_map/gold_hash_map.rs", "hash_map::gold_hash_map::GoldHashMap")
-    ctx.floor("R-CLEAR.fields", 4)
+    ctx.floor("R-CLEAR.fields", 3)
     ctx.floor("R-TAINT-S.complete.enumerators", 1)
     ctx.floor("R-TAINT-S.sources", 4)
     ctx.floor("R-TAINT-S.sinks", 5)
